@@ -268,6 +268,10 @@ func (g *Gen) instrWrites(in ssa.Instruction, ws *WriteSet) (callees []*ssa.Func
 			}
 			return
 		}
+		if cm.IsInvoke() && cm.Method.Name() == "Write" && cm.Value.Type().String() == "io.Writer" {
+			fail, _, _, zdom, zdata, _ := ioHeaps(g)
+			ws.Names[fail], ws.Names[zdom], ws.Names[zdata] = true, true, true
+		}
 		if cm.IsInvoke() {
 			// CHA over repo types
 			it := cm.Value.Type().Underlying().(*types.Interface)
@@ -336,6 +340,11 @@ func (g *Gen) externalWrites(fn *ssa.Function, ws *WriteSet) {
 		n, seq := encHeaps(g)
 		ws.Names[n] = true
 		ws.Names[seq] = true
+	case "os.MkdirAll", "os.Create", "archive/zip.NewWriter", "(*archive/zip.Writer).Create", "(*archive/zip.Writer).Close", "(*os.File).Close":
+		fail, open, count, zdom, zdata, zentry := ioHeaps(g)
+		for _, h := range []string{fail, open, count, zdom, zdata, zentry} {
+			ws.Names[h] = true
+		}
 	case "fmt.Sscanf", "fmt.Sscan":
 		ws.Names[g.TE.CellHeap(types.Typ[types.Int])] = true
 		ws.Names[g.TE.CellHeap(types.Typ[types.Float64])] = true
